@@ -329,11 +329,13 @@ def handle (toks : List String) : Option String :=
       | .truncate p => p ≠ "out"
       | .unlink _ => true
     some s!"output={joinWith ";" intents} others={others.length}"
-  -- cli-compress-files <plain|force>
-  | ["cli-compress-files", mode] => do
-    let fs : Fs := [("in", .regular (pattern 300))] ++ (if mode = "force" then [("out.cba", Node.regular [1])] else [])
-    let tmp := tempPathOf "out.cba"
-    let c : CompressCmd := ⟨⟨mode = "force", false, false⟩, "in", "out.cba", tmp, ⟨.fixed 64, 64, none, []⟩⟩
+  -- cli-compress-files <plain|force|empty> [output path] : write intents per path; name of the temp file
+  | "cli-compress-files" :: mode :: rest => do
+    let out := rest.headD "out.cba"
+    let fs : Fs := [("in", .regular (if mode = "empty" then [] else pattern 300))] ++
+      (if mode = "force" then [(out, Node.regular [1])] else [])
+    let tmp := tempPathOf out
+    let c : CompressCmd := ⟨⟨mode = "force", false, false⟩, "in", out, tmp, ⟨.fixed 64, 64, none, []⟩⟩
     let r := Cli.compress Blake2b.hash id c fs
     let show_ (p : String) : String := joinWith ";" ((r.ops.filterMap fun op => match op with
       | .openWrite q fl => if q = p then some ("write-open:" ++ "|".intercalate ((fl.splitOn "|").toArray.qsort (· < ·)).toList) else none
@@ -341,11 +343,12 @@ def handle (toks : List String) : Option String :=
       | _ => none).toArray.qsort (· < ·)).toList
     let others := r.ops.filter fun op => match op with
       | .openRead _ => false
-      | .openWrite p _ => p ≠ "out.cba" ∧ p ≠ tmp
-      | .write p => p ≠ "out.cba" ∧ p ≠ tmp
-      | .truncate p => p ≠ "out.cba" ∧ p ≠ tmp
+      | .openWrite p _ => p ≠ out ∧ p ≠ tmp
+      | .write p => p ≠ out ∧ p ≠ tmp
+      | .truncate p => p ≠ out ∧ p ≠ tmp
       | .unlink p => p ≠ tmp
-    some s!"output={show_ "out.cba"} temp={show_ tmp} others={others.length} tmpname={tmp}"
+    let left := (r.fs.map (·.1)).filter fun p => p ≠ "in" ∧ p ≠ out
+    some s!"output={show_ out} temp={show_ tmp} others={others.length} tmpname={(tmp.splitOn "/").getLastD ""} left={left.length}"
   -- plan-safe <sizes> <O ids> <N ids> <ops> : is this op list (the implementation's) a safe plan
   -- in the sense of Spec.InPlace.safePlan?
   | ["plan-safe", sizes, o, n, ops] => do
